@@ -16,10 +16,10 @@ def run(ctx):
     trace = ctx.execute("system", scen, timeout_s=60)
     ctx.validate("System", "Trace_System.tla", "Trace_C05.cfg", trace, "system", parallel=12)
     n = ctx.cov["traces_validated_against_impl"]
-    ctx.cov["evaluations"] = n * 6
+    ctx.cov["evaluations"] = n * 8
     ctx.cov["distinct_nontrivial"] = n
     ctx.finish("model_checking",
                "all well-posed systems of %s classes over roles {constant, computed constant, state, algebraic} x dependency sets (<= 2 per equation, incl. the variable of integration) x home components (seconds / milliseconds), "
-               "optionally with implicit equations (one unknown, two unknowns, with an initial guess); each analysed in 6 orderings / renamings (equations, variables, components reversed; two renamings); "
-               "TLC compares model type and variable types with the ground truth, checks the AnalyserModel structure (classes once, dense indices, computing equations, dependencies, ordering) and invariance across the 6 variants" % ("1-2" if ctx.quick else "1-3"),
+               "optionally with implicit equations (one unknown, two unknowns, with an initial guess); each analysed in 8 orderings / renamings / placements (equations, variables, components reversed; two renamings; x1 and x2 exchanging names in B; initial values on the reading component's copy); "
+               "TLC compares model type and variable types with the ground truth, checks the AnalyserModel structure (classes once, dense indices, computing equations, dependencies, ordering) and invariance of types and of the per-class signature (equation types, state / rate dependence, dependencies) across the 8 variants" % ("1-2" if ctx.quick else "1-3"),
                ["ground truth exists by construction only", "equations are sums k + deps; richer expressions are C03's"])
